@@ -144,6 +144,13 @@ fn candidates(w: &World, p: &Plan) -> Vec<(World, Plan)> {
         }
     }
     for i in 0..w.files.len() {
+        if let FileDiff::Insert { line, renamed_from: Some(_) } = &w.files[i].diff {
+            let mut c = w.clone();
+            c.files[i].diff = FileDiff::Insert { line: *line, renamed_from: None };
+            out.push((c, p.clone()));
+        }
+    }
+    for i in 0..w.files.len() {
         if w.files[i].unwalkable {
             let mut c = w.clone();
             c.files[i].unwalkable = false;
@@ -215,6 +222,11 @@ fn candidates(w: &World, p: &Plan) -> Vec<(World, Plan)> {
         }
         let mut c = w.clone();
         c.ai.remove(t);
+        out.push((c, p.clone()));
+    }
+    if w.env.ambient_openai_env {
+        let mut c = w.clone();
+        c.env.ambient_openai_env = false;
         out.push((c, p.clone()));
     }
     if w.env.lua_mode.is_some() {
